@@ -203,7 +203,11 @@ Inductive nftop :=
 | NAddChain (t c : tok) (spec : list tok)       (* printed args after the table *)
 | NFlushChain (t c : tok)
 | NAddRule (t c : tok) (args : list tok)        (* args as passed (args[0] starts with the chain name) *)
-| NDeleteTable (t : tok).
+| NDeleteTable (t : tok)
+| NCreateChain (t c : tok) (spec : list tok).    (* `nft create chain`: as `add chain`, but an existing chain is an error
+                                                   (EEXIST, "File exists"; checked against nft 1.0.x in a namespace).
+                                                   methods/nft.py does not issue it; the kernel model knows it so that a
+                                                   changed set-up sequence is ANSWERED as the real tool answers. *)
 
 Fixpoint find_tbl (t : tok) (L : list nfttable) : option table :=
   match L with
@@ -246,6 +250,14 @@ Definition nft_exec (o : nftop) (L : list nfttable) : option (list nfttable) :=
       | None => None
       end
   | NDeleteTable t => match find_tbl t L with Some _ => Some (del_tbl t L) | None => None end
+  | NCreateChain t c _ =>
+      match find_tbl t L with
+      | Some T => match find_chain c T with
+                  | Some _ => None
+                  | None => Some (set_tbl t (T ++ [(c, [])]) L)
+                  end
+      | None => None
+      end
   end.
 
 (* ------------------------------------------------------------------ *)
@@ -448,6 +460,7 @@ Definition nftop_args (o : nftop) : list tok :=
   | NFlushChain t c => [bs "flush chain"; bs "inet"; t; c]
   | NAddRule t c args => [bs "add rule"; bs "inet"; t] ++ args
   | NDeleteTable t => [bs "delete table"; bs "inet"; t; []]
+  | NCreateChain t c spec => [bs "create chain"; bs "inet"; t; c] ++ spec
   end.
 
 (* pfctl: argv after shlex.split; stdin travels separately *)
@@ -516,6 +529,7 @@ Definition parse_nft (args : list tok) : option nftop :=
       else match rest with
            | a0 :: more =>
                if bytes_eqb act (bs "add chain") then Some (NAddChain t a0 more)
+               else if bytes_eqb act (bs "create chain") then Some (NCreateChain t a0 more)
                else if bytes_eqb act (bs "flush chain") then Some (NFlushChain t a0)
                else if bytes_eqb act (bs "add rule") then Some (NAddRule t (first_word a0) rest)
                else None
